@@ -23,6 +23,69 @@ RULE = ("(M) exhaustive TLC on Upload.tla (2 uploaders x <=2 files x <=2 records
         "scenarios with a fault + ID interleavings in which the two allocations overlap.")
 
 
+def repo_test_traces(ctx):
+    """(T) the repository's OWN tests of storage/db and storage/app, run with a recording hook overlaid
+    into their test packages (harness/rectests/storage__*): every DB.NewUpload they perform is
+    logged (read / insert / commit, one model uploader per call, reset per database, nextday when
+    the test's clock moves on) and the log must be a behaviour of Upload.tla's ID allocation with
+    IdsUnique / IdsMonotone / IdFormat holding throughout.  An invariant violation or an ID that
+    is not YYYYMMDD.N is a verdict; any other rejection only says that the code was restructured
+    away from the model and is logged."""
+    import subprocess
+    ovp = os.path.join(ctx.work, "overlay-rectests.json")
+    rep = {}
+    for pkg in ("storage/db", "storage/app"):
+        rep[os.path.join(vlib.REPO, pkg, "zz_verif_rec_test.go")] = os.path.join(vlib.VERIF, "harness", "rectests", pkg.replace("/", "__"), "zz_verif_rec_test.go")
+    json.dump({"Replace": rep}, open(ovp, "w"))
+    tp = os.path.join(ctx.work, "repo-tests-ids.ndjson")
+    env = ctx.goenv(); env["VERIF_TRACE"] = tp
+    pr = subprocess.run(["go", "test", "-vet=off", "-count=1", "-p", "1", "-tags", "verif", "-overlay", ovp, "./storage/db/", "./storage/app/"], cwd=vlib.REPO, env=env,
+                        stdout=subprocess.PIPE, stderr=subprocess.STDOUT, text=True, timeout=900)
+    if "build failed" in pr.stdout or "cannot find" in pr.stdout:
+        raise vlib.Infra("building the storage tests with the recorder failed:\n" + pr.stdout[-1500:])
+    if pr.returncode != 0:
+        vlib.log("NOTE the repository's storage tests fail under the recorder: " + pr.stdout[-300:].replace("\n", " | "))
+    if not os.path.exists(tp):
+        raise vlib.Infra("the storage tests recorded nothing")
+    evs = ctx.read_ndjson(tp)
+    calls = [e for e in evs if e["ev"] == "commit"]
+    if len(calls) < 10 and pr.returncode == 0:
+        raise vlib.Infra("the storage tests recorded only %d uploads" % len(calls))
+    badf = [e for e in evs if e["ev"] == "badformat"]
+    if badf:
+        ctx.report([{"signature": "id-format", "family": "upload-repo-tests", "detail": "DB.NewUpload handed out / read an upload ID that is not YYYYMMDD.N: %r" % badf[0].get("id")}],
+                   "IDs observed while the repository's storage tests run")
+        evs = [e for e in evs if e["ev"] != "badformat"]
+        with open(tp, "w") as fh:
+            for e in evs:
+                fh.write(json.dumps(e) + "\n")
+    n = max([int(e["u"][1:]) for e in evs if "u" in e] or [1])
+    d = mx = 1
+    for e in evs:
+        if e["ev"] == "reset":
+            d = 1
+        elif e["ev"] == "nextday":
+            d += 1
+            mx = max(mx, d)
+    cfg = os.path.join(ctx.specdir, "Upload_idtrace_repo.cfg")
+    with open(cfg, "w") as fh:
+        fh.write("SPECIFICATION TSpec\nCONSTANTS\n  Uploaders = {%s}\n  MaxFiles = 1\n  MaxRecs = 1\n  MaxFaults = 0\n  Days = %d\n  CommitBeforeClose = FALSE\n"
+                 "INVARIANTS IdsUnique IdsMonotone IdFormat\nCONSTRAINT HW\nPOSTCONDITION Post\nCHECK_DEADLOCK FALSE\n" % (", ".join('"c%d"' % i for i in range(1, n + 1)), mx + 1))
+    ok, hwm, r = ctx.trace_validate("Upload_idtrace.tla", "Upload_idtrace_repo.cfg", tp, timeout=900)
+    if not ok:
+        bad = evs[min(hwm, len(evs) - 1)]
+        inv = re.search(r"Invariant (\w+) is violated", r.error or "")
+        if inv:
+            ctx.report([{"signature": "ids-" + inv.group(1), "family": "upload-repo-tests", "events": evs[max(0, hwm - 8):hwm + 1],
+                         "detail": "IDs handed out while the repository's storage tests run violate %s at event %d: %s" % (inv.group(1), hwm, json.dumps(bad))}],
+                       "trace validation of the repository's storage tests")
+        else:
+            vlib.log("NOTE design conformance: the storage tests' NewUpload steps are not a behaviour of Upload.tla at event %d (%s)" % (hwm, json.dumps(bad)[:200]))
+            ctx.cov["design_conformance_rejections"] = ["repo storage tests: event %d" % hwm]
+    ctx.cov["repo_test_uploads_validated"] = len(calls)
+    ctx.cov["traces_validated_against_impl"] += sum(1 for e in evs if e["ev"] == "reset")
+
+
 def run(ctx):
     ctx.build()
     q = ctx.quick
@@ -79,6 +142,7 @@ def run(ctx):
                    "trace validation of in-flight observations")
     ctx.cov["traces_validated_against_impl"] += ntr
     ctx.cov["inflight_events"] = sum(1 for _ in open(vp))
+    repo_test_traces(ctx)
     overl = 0
     for c in ids:
         us = [s["u"] for s in c["steps"] if s["u"] != "-"]
